@@ -286,7 +286,7 @@ var ledgerSpecs = []ledgerSpec{
 			{"lagging-tip+follow-up", ledger.Cfg{Nodes: []string{"G", "N1"}, Spare: "N2", Sync: true, Supply: sp(10, 0), Menu: []ledger.TxSpec{t7},
 				Hidden: []ledger.TxSpec{tx("side", "R", "B", 1, 0), tx("kid", "R", "B", 1, 0)}, MaxProposeNodes: 1,
 				Prefix: []string{"P:0:p1", "P:0:p2", "P:0:p3", "P:0:p4", "P:0:p5", "Z:0:side", "Z:1:kid:5"}, Props: only("C14")}, 1, 1, 3},
-			{"forked-tips", ledger.Cfg{Nodes: []string{"G", "N1"}, Spare: "N2", Sync: true, Supply: sp(10, 0), Menu: []ledger.TxSpec{t7}, Hidden: []ledger.TxSpec{t1, t2, t3, t4}, MaxProposeNodes: 1, Prefix: forked, Props: only("C14")}, 2, 3, 6},
+			{"forked-tips", ledger.Cfg{Nodes: []string{"G", "N1"}, Spare: "N2", Sync: true, Supply: sp(10, 0), Menu: []ledger.TxSpec{t7}, Hidden: []ledger.TxSpec{t1, t2, t3, t4}, MaxProposeNodes: 1, Prefix: forked, Props: only("C14")}, 2, 3, 4},
 			{"truncated-sources", ledger.Cfg{Nodes: []string{"G"}, Spare: "N2", Sync: true, Supply: sp(10, 0), Menu: []ledger.TxSpec{t1, t3}, Truncate: true, Prefix: chain, Props: only("C14")}, d - 1, 2, 4},
 			{"multi-tip-sources", ledger.Cfg{Nodes: []string{"G", "N1"}, Spare: "N2", Sync: true, Supply: sp(10, 0), Menu: []ledger.TxSpec{t1, t2, t3}, Crafted: []ledger.TxSpec{tx("side", "R", "B", 1, 0)}, MaxProposeNodes: 1, Props: only("C14")}, d, 2, 4},
 		}
